@@ -30,6 +30,7 @@ import (
 	"verif/internal/ev"
 	"verif/internal/keys"
 	"verif/internal/opdrv"
+	"verif/internal/sched"
 	"verif/internal/vstore"
 )
 
@@ -958,6 +959,15 @@ func (w *worker) run(n int) int {
 // runRound builds the shared instances, lets the goroutines loose, and compares all snapshots at quiescence.
 func runRound(run *ev.Run, r int) {
 	markRace(roundBase + r)
+	// two rounds in three run with yield jitter: every 2nd / 3rd yield point (a span the library opens, a storage
+	// call, a getter of a client or auth request) hands the processor over, so that goroutines are switched in the
+	// middle of handlers and helpers, not only where the scheduler would do it by itself
+	sched.Install()
+	if j := []int{0, 3, 2}[r%3]; j > 0 {
+		sched.Jitter(j)
+		defer sched.Jitter(0)
+		run.Observed("conc:round-with-yield-jitter")
+	}
 	rd := newRound(run, r)
 	if rd == nil {
 		return
